@@ -221,52 +221,82 @@ theorem bbox_inside_eq_slice {α} (fill : α) (xs : List α) (lp s : Nat) (h : l
 
 /-! ### `crop_to_largest`: padding every item of a list to the largest shape -/
 
-/-- `crop_to_largest` returns, per axis, the window of length `max` starting at `-(ceil((max - n)/2))`, pad value outside -/
+/-- `crop_to_largest` returns, per axis, the window of length `max` starting at `-floor((max - n)/2)`, pad value outside -/
 theorem crop_to_largest_spec {α} (fill : α) (mx : Nat) (xs : List α) :
     cropToLargest1 fill mx xs = .ok (bboxSpec fill xs (cropToLargestStart mx xs.length) mx) :=
   bbox_correct fill xs _ mx
 
-/-- the data sits `ceil((max - n) / 2)` after the start of the padded item … -/
+/-- the data sits `floor((max - n) / 2)` after the start of the padded item (the convention of `pad_tensor`) … -/
 theorem crop_to_largest_places {α} (fill : α) (mx : Nat) (xs : List α) (h : xs.length ≤ mx) (i : Nat) (hi : i < xs.length) :
-    (bboxSpec fill xs (cropToLargestStart mx xs.length) mx)[i + (mx - xs.length + 1) / 2]? = xs[i]? := by
+    (bboxSpec fill xs (cropToLargestStart mx xs.length) mx)[i + (mx - xs.length) / 2]? = xs[i]? := by
   rw [bboxSpec_getElem?]
   unfold cropToLargestStart
-  have e : (-(↑mx - ↑xs.length : Int)) / 2 + ↑(i + (mx - xs.length + 1) / 2) = (i : Int) := by omega
-  have h1 : i + (mx - xs.length + 1) / 2 < mx := by omega
+  have e : -((↑mx - ↑xs.length : Int) / 2) + ↑(i + (mx - xs.length) / 2) = (i : Int) := by omega
+  have h1 : i + (mx - xs.length) / 2 < mx := by omega
   rw [if_pos h1, e, if_pos (by omega)]
   simp
 
 /-- … and everything else is the pad value -/
 theorem crop_to_largest_fill {α} (fill : α) (mx : Nat) (xs : List α) (h : xs.length ≤ mx) (k : Nat) (hk : k < mx)
-    (hout : k < (mx - xs.length + 1) / 2 ∨ (mx - xs.length + 1) / 2 + xs.length ≤ k) :
+    (hout : k < (mx - xs.length) / 2 ∨ (mx - xs.length) / 2 + xs.length ≤ k) :
     (bboxSpec fill xs (cropToLargestStart mx xs.length) mx)[k]? = some fill := by
   rw [bboxSpec_getElem?]
   unfold cropToLargestStart
   rw [if_pos hk, if_neg (by omega)]
 
-/-- FULL STATEMENT (fails on the current tree for odd differences, see `crop_to_largest_current_violates`):
-`∀ n ≤ max, centerCrop n (crop_to_largest item) = item` — i.e. `crop_to_largest` centres with the same convention
-(`floor(diff/2)` before the data) as `center_crop` / `pad_tensor`.  Proved part: every even difference. -/
-theorem crop_to_largest_center_crop_even_partial {α} (fill : α) (mx : Nat) (xs : List α) (h : xs.length ≤ mx)
-    (heven : (mx - xs.length) % 2 = 0) :
+/-- **`crop_to_largest` followed by a centre crop back to the item's size is the identity — every size, every parity of
+the difference** (full statement; holds since 40ede8a) -/
+theorem crop_to_largest_center_crop_id {α} (fill : α) (mx : Nat) (xs : List α) (h : xs.length ≤ mx) :
     centerCrop xs.length (bboxSpec fill xs (cropToLargestStart mx xs.length) mx) = xs := by
   apply List.ext_getElem?
   intro i
   have hl : (bboxSpec fill xs (cropToLargestStart mx xs.length) mx).length = mx := bbox_length _ _ _ _
   by_cases hi : i < xs.length
   · rw [center_crop_window _ _ (by rw [hl]; exact h) i hi, hl]
-    have : (mx - xs.length) / 2 = (mx - xs.length + 1) / 2 := by omega
-    rw [this]
     exact crop_to_largest_places fill mx xs h i hi
   · have hcl := center_crop_length xs.length (bboxSpec fill xs (cropToLargestStart mx xs.length) mx) (by rw [hl]; exact h)
     rw [List.getElem?_eq_none (by omega), List.getElem?_eq_none (by omega)]
 
-/-- **finding on the current tree**: an item of length 2 padded to 3 by `crop_to_largest` is `[pad, 1, 2]`; the centre
-crop back to length 2 (start `floor(1/2) = 0`) returns `[pad, 1]` -/
-theorem crop_to_largest_current_violates :
-    cropToLargest1 (0 : Int) 3 [1, 2] = .ok [0, 1, 2] ∧ centerCrop 2 [(0 : Int), 1, 2] ≠ [1, 2] := by decide
+/-- `crop_to_largest` and `pad_tensor` agree: same placement, pad value elsewhere -/
+theorem crop_to_largest_eq_pad {α} (fill : α) (mx : Nat) (xs : List α) (h : xs.length ≤ mx) :
+    bboxSpec fill xs (cropToLargestStart mx xs.length) mx = padTo fill mx xs := by
+  apply List.ext_getElem?
+  intro k
+  have hl : (bboxSpec fill xs (cropToLargestStart mx xs.length) mx).length = mx := bbox_length _ _ _ _
+  have hp := pad_length fill mx xs h
+  by_cases hk : k < mx
+  · by_cases hin : (mx - xs.length) / 2 ≤ k ∧ k < (mx - xs.length) / 2 + xs.length
+    · obtain ⟨i, rfl⟩ : ∃ i, k = i + (mx - xs.length) / 2 := ⟨k - (mx - xs.length) / 2, by omega⟩
+      rw [crop_to_largest_places fill mx xs h i (by omega), pad_places fill mx xs h i (by omega)]
+    · rw [crop_to_largest_fill fill mx xs h k hk (by omega)]
+      simp only [padTo, fPad, padAfter, padBefore]
+      have e : (max 0 ((↑mx - ↑xs.length : Int) / 2)).toNat = (mx - xs.length) / 2 := by omega
+      rw [e, List.append_assoc, List.getElem?_append, List.getElem?_append]
+      simp only [List.length_replicate, List.getElem?_replicate]
+      by_cases h1 : k < (mx - xs.length) / 2
+      · simp [h1]
+      · have h2 : ¬ k - (mx - xs.length) / 2 < xs.length := by omega
+        have h3 : k - (mx - xs.length) / 2 - xs.length <
+            (max 0 (↑mx - ↑xs.length - max 0 ((↑mx - ↑xs.length : Int) / 2))).toNat := by omega
+        simp [h1, h2, h3]
+  · rw [List.getElem?_eq_none (by omega), List.getElem?_eq_none (by omega)]
+
+/-- the pinned tree (`-(max - n) // 2`, i.e. `ceil` fill values before the data) violated the identity for odd
+differences: an item of length 2 padded to 3 was `[pad, 1, 2]`, centre-cropped back `[pad, 1]` — regression witness -/
+theorem crop_to_largest_pinned_violates :
+    cropToLargest1Pinned (0 : Int) 3 [1, 2] = .ok [0, 1, 2] ∧ centerCrop 2 [(0 : Int), 1, 2] ≠ [1, 2] := by decide
 
 example : cropToLargest1 (9 : Int) 4 [1, 2] = .ok [9, 1, 2, 9] := by decide
+example : cropToLargest1 (9 : Int) 3 [1, 2] = .ok [1, 2, 9] := by decide
+
+/-! ### dtype of the padded patch of `crop_to_bbox` -/
+
+/-- `torch.full(size, pad_value, dtype=data.dtype)` keeps the element type for every input type -/
+theorem bbox_patch_dtype_preserved (d : ElemType) : patchDtype .full d = d := rfl
+
+/-- pinned tree (`pad_value * ones(size, dtype=data.dtype)`): a bool input came back as an integer tensor; an allocation
+without `dtype=` (seeded C10-2) turns everything into float — regression witnesses -/
+theorem bbox_patch_dtype_pinned_violates : patchDtype .scaledOnes .bool ≠ .bool ∧ patchDtype .noDtype .int ≠ .int := by decide
 
 /-! ### k-space crop / pad ≡ image-space crop / pad under the backward operator -/
 
